@@ -247,6 +247,8 @@ def e2e_cases(pid, tier, rng):
             bss = sorted(set(bss))
             if len(bss) > 10:
                 bss = sorted(rng.sample(bss, 10) + [65536])
+        if lay.size >= 8096:
+            bss += [8095, 8096, 8097]      # (the size at which block-zero analysis changes its demands)
         conts = ["plain"] + ([CONTAINERS[1 + fi % (len(CONTAINERS) - 1)]] if tier == "quick" else CONTAINERS[1:])
         for B in sorted(set(bss)):
             for cont in conts:
@@ -286,6 +288,15 @@ def e2e_cases(pid, tier, rng):
                 case = Case(files, copt + wopt + ["--blocksz", str(B), argv], exp_out,
                             note={"blocksz": B, "container": cont, "file": fi, "colour": colour, "window": wopt}, timeout=60)
                 cases.append((case, lay, B, cont))
+    # files of exactly the sizes at which the reader changes its ways (block-zero analysis asks more of a block of 8096
+    # bytes or more; 65536 is the default block size), read at block sizes below, at and above the file size
+    for size in ([8095, 8096, 8097, 65536] if tier == "quick" else [4096, 8095, 8096, 8097, 16192, 65535, 65536, 65537]):
+        lay = textgen.exact_size_layout(rng, size, notation=textgen.NOTATIONS[size % len(textgen.NOTATIONS)])
+        for Bx in sorted({64, 4096, 8096, min(0xFFFFFF, size), size + 1, 65536}):
+            name = "x%d.log" % size
+            case = Case({name: lay.data}, ["--color", "never", "--blocksz", str(Bx), name], lay.printed(),
+                        note={"blocksz": Bx, "container": "plain", "file": name}, timeout=60)
+            cases.append((case, lay, Bx, "plain"))
     # boundary family: the first message(s) end exactly on a block end, a multi-block line starts the next block
     for B in ([64, 100, 128] if tier == "quick" else [64, 65, 100, 128, 200, 256, 1000, 4096, 8096, 9000]):
         for first, contb in [(f_, c_) for f_ in ((1, 2) if B < 8096 else (2, 3)) for c_ in (False, True)]:
